@@ -85,11 +85,14 @@ def run_read(version, packets, thr, enc, chunk, total_cut, seed, force_compress=
                             info['secret'] = b'\0' * 16
                         return True
                 return False
-            steps += [emit({'kind': 'login', 'name': 'encryption request', 'payload': prof.enc_request('-', der, tok)}),
-                      ('wait', after_resp), ('encrypt', lambda s: info['secret'])]
-        if thr is not None:
-            steps += [emit({'kind': 'login', 'name': 'set compression', 'payload': prof.login_compress(thr)}),
-                      ('compress', thr)]
+            enc_steps = [emit({'kind': 'login', 'name': 'encryption request', 'payload': prof.enc_request('-', der, tok)}),
+                         ('wait', after_resp), ('encrypt', lambda s: info['secret'])]
+        else:
+            enc_steps = []
+        comp_steps = [] if thr is None else [emit({'kind': 'login', 'name': 'set compression', 'payload': prof.login_compress(thr)}),
+                                             ('compress', thr)]
+        # the two optional login steps come in either order (compression may be announced before the encryption request)
+        steps += (comp_steps + enc_steps) if seed % 2 else (enc_steps + comp_steps)
         steps += [emit({'kind': 'login', 'name': 'login success', 'payload': prof.login_success(bytes(range(16)), 'verif')}),
                   ('call', lambda s: (setattr(s, 'state', 'play'), info.__setitem__('play_start', s.session.s2c_total)))]
 
@@ -188,9 +191,11 @@ def run_write(version, sizes, thr, enc, seed, forced_mask=0, fills=None):
                         info['secret'] = c10.rsa_decrypt(priv, p['secret'])
                         return True
                 return False
-            steps += [('send', prof.enc_request('-', der, b'tokn')), ('wait', after_resp), ('encrypt', lambda s: info['secret'])]
-        if thr is not None:
-            steps += [('send', prof.login_compress(thr)), ('compress', thr)]
+            enc_steps = [('send', prof.enc_request('-', der, b'tokn')), ('wait', after_resp), ('encrypt', lambda s: info['secret'])]
+        else:
+            enc_steps = []
+        comp_steps = [] if thr is None else [('send', prof.login_compress(thr)), ('compress', thr)]
+        steps += (comp_steps + enc_steps) if seed % 2 else (enc_steps + comp_steps)
         steps += [('send', prof.login_success(bytes(range(16)), 'verif')), ('call', lambda s: setattr(s, 'state', 'play')),
                   ('pause', 'end'), ('send', prof.play_disconnect('{"text":"x"}'))]
         sc.steps = steps
